@@ -6,6 +6,7 @@ import Driver.Util
 import Matreex.Model.Transpose
 import Matreex.Model.Construct
 import Matreex.Model.Swap
+import Matreex.Model.Overwrite
 
 namespace Driver
 open Matreex
@@ -14,6 +15,10 @@ structure World where
   regs : Array (Option (Matrix String)) := Array.replicate 8 none
   zst : Bool := false
   es : Nat := 24
+  /-- token elements: `Clone::clone` marks the payload with a prime -/
+  tok : Bool := true
+
+def World.cloneFn (w : World) : String → String := fun x => if w.tok then x ++ "'" else x
 
 def stStr (m : Matrix String) : String :=
   s!"st {ordStr m.order} {m.nrows}x{m.ncols} " ++ showList id m.data.toList
@@ -52,8 +57,8 @@ def stepHist (w : World) (ws : List String) : Option (World × String) :=
   match ws with
   | ["elem", kind] =>
     let (z, es) := if kind = "unit" then (true, 0) else if kind = "u8" then (false, 1)
-      else if kind = "u32" then (false, 4) else if kind = "w24" then (false, 24) else (false, 40)
-    some ({ w with zst := z, es := es, regs := Array.replicate 8 none }, "ok")
+      else if kind = "u32" then (false, 4) else if kind = "w24" then (false, 24) else if kind = "cm" then (false, 8) else (false, 40)
+    some ({ w with zst := z, es := es, tok := decide (kind = "tok" ∨ kind = "cm"), regs := Array.replicate 8 none }, "ok")
   | ["new", r, o, nr, nc, base] => do
     let r ← r.toNat?; let o ← parseOrder o; let nr ← nr.toNat?; let nc ← nc.toNat?; let base ← base.toNat?
     let m := mkMatrix o nr nc base w.zst
@@ -76,6 +81,12 @@ def stepHist (w : World) (ws : List String) : Option (World × String) :=
   | ["resize", r, nr, nc] => do
     let r ← r.toNat?; let nr ← nr.toNat?; let nc ← nc.toNat?
     pure (inplaceRes w r (fun m => m.resize w.es ⟨nr, nc⟩ (if w.zst then "u" else "d")))
+  | ["overwrite", r, q] => do
+    let r ← r.toNat?; let q ← q.toNat?
+    let src ← w.get q
+    -- `Clone::clone` of a token appends a prime to its payload (so clones are visible)
+    let (w', s) := inplace w r (fun m => m.overwrite (w.cloneFn) src)
+    pure (w', s ++ " | " ++ stStr src)
   | ["zswap", name, o, nr, nc, a, b] => do
     let o ← parseOrder o; let nr ← nr.toNat?; let nc ← nc.toNat?; let a ← a.toNat?; let b ← b.toNat?
     -- zero-sized elements: only the outcome is observable; bounds decide it (the data path for
